@@ -266,7 +266,7 @@ def run_harness(h: Harness, res: Result, *, tier, timeout_ms, seed, known, prop,
 
     try:
         eng, paths, exhaustive = explore(fn, max_paths=h.max_paths, timeout_ms=timeout_ms,
-                                         budget_s=(300 if tier == "quick" else 1800))
+                                         budget_s=(150 if tier == "quick" else 1800))
     except BudgetExceeded as e:
         res.inconclusive.append("%s: %s" % (h.name, e))
         return
@@ -540,7 +540,11 @@ def main(prop, harness_factory, *, level, explanation, assumptions, trusted_base
     timeout_ms = 20000 if tier == "quick" else 120000
     if pre:
         pre(res, tier)
+    total_budget = float(os.environ.get("VF_TOTAL_BUDGET_S", 900 if tier == "quick" else 6 * 3600))
     for h in hs:
+        if time.time() - t0 > total_budget:
+            res.inconclusive.append("%s: not run -- the time budget of this tier (%ds) was used up by earlier harnesses" % (h.name, total_budget))
+            continue
         try:
             run_harness(h, res, tier=tier, timeout_ms=timeout_ms, seed=seed, known=known, prop=prop, replay_dir=replay_dir)
         except Exception as e:  # engine / harness bug -> inconclusive, never a violation
